@@ -391,6 +391,32 @@ def cell_edges(ctx, crate):
     ctx.report(clause, "has_intersection:four-edges", ok, "edges tested: {S,E}, {E,N}, {N,W}, {W,S}" if ok else "pairs of vertices tested: %s — not the four edges of the cell" % (got if got is not None else pairs), at=b.span, kind="N")
 
 
+def bounding_centre(ctx, crate):
+    """N: the centre of `bounding_cone` is the normalised sum of the points: the three components
+    handed to `UnitVect3::new` are (X, Y, Z) / sqrt(X^2 + Y^2 + Z^2) of one and the same triple (read at
+    (1, 2, 2), whose norm is 3).  A centre that is not a unit vector makes every distance to it wrong,
+    and the cone no longer contains the polygon."""
+    from rules.common import feval
+    clause = "bounding-cone"
+    fns = [p_ for p_ in crate.bodies if p_.endswith("Cone::bounding_cone")]
+    if len(fns) != 1: return
+    b = ctx.anchor(crate, fns[0], clause)
+    if b is None: return
+    e = Engine(crate); e.run(fns[0]); ctx.functions |= e.visited_fns
+    nw = [ev for ev in e.events.values() if len(ev.site) == 2 and ev.callee and "UnitVect3" in ev.callee and ev.callee.endswith("::new") and len(ev.args) == 3]
+    if len(nw) != 1:
+        ctx.not_decided("bounding_cone: how the centre is normalised (no single UnitVect3::new call)"); return
+    args = nw[0].args
+    nums = [a[3] if a[0] == 'op' and a[1] == 'div' else None for a in args]
+    dens = [a[4] if a[0] == 'op' and a[1] == 'div' else None for a in args]
+    ok = all(n_ is not None for n_ in nums) and dens[0] == dens[1] == dens[2] and len(set(nums)) == 3
+    val = None
+    if ok:
+        val = feval(dens[0], {nums[0]: 1.0, nums[1]: 2.0, nums[2]: 2.0}, e)
+        ok = val is not None and abs(val - 3.0) < 1e-15
+    ctx.report(clause, "bounding_cone:centre-normalised", ok, "centre = (X, Y, Z) / sqrt(X^2 + Y^2 + Z^2)" if ok else "the centre is %s; its divisor read at (1, 2, 2) is %s, not 3" % ([show(a)[:50] for a in args], val), at=b.span, kind="N")
+
+
 def count_rule(ctx, crate):
     clause = "vertex-count"
     b = ctx.anchor(crate, NVIP, clause)
@@ -569,6 +595,7 @@ def run(ctx):
     coo3d_invariant(ctx, crate)
     winding_step(ctx, crate)
     cell_edges(ctx, crate)
+    bounding_centre(ctx, crate)
     driver(ctx, crate)
     from rules.c09 import recursion_shape
     recursion_shape(ctx, crate, RECUR)
